@@ -33,13 +33,13 @@ LABEL_KEYS = ("u", "x", "logl", "blobs", "beta", "logz", "calls", "iter", "ess")
 def sampler_cfg(draw):
     return {"kernel": draw(st.sampled_from(["tpcn", "rwm"])), "resample": draw(st.sampled_from(["mult", "syst"])),
             "clustering": draw(st.booleans()), "mode": draw(st.sampled_from(["vector", "scalar", "blobs"])), "d": draw(st.integers(1, 3)),
-            "tseed": draw(st.integers(0, 10**6))}
+            "tseed": draw(st.integers(0, 10**6)), "pool": draw(st.sampled_from([None, None, 1, "permuting"]))}
 
 
 def build(cfg, random_state=None):
     t = Target.from_spec(simple_target_spec(np.random.default_rng(cfg["tseed"]), cfg["d"], cfg["mode"]))
     s = make_sampler(t, dict(sample=cfg["kernel"], resample=cfg["resample"], clustering=cfg["clustering"], n_particles=24,
-                             random_state=random_state))
+                             random_state=random_state, pool=cfg.get("pool") if cfg["mode"] != "vector" else None, pool_seed=cfg.get("tseed", 0)))
     return s, t
 
 
